@@ -17,6 +17,13 @@ Theorem C12_nn : forall nn nf ne t data res, c12_nn nn nf ne t data = Some res -
 Proof. exact c12_nn_spec. Qed.
 Print Assumptions C12_nn.
 
+(* tie rule made explicit: of the sources at minimal distance the one with the lowest index is taken *)
+Theorem C12_nn_tie_rule : forall keys, keys <> [] ->
+  exists d, nth_error keys (c12_nn_index keys) = Some d /\
+    forall j dj, nth_error keys j = Some dj -> d < dj \/ (d = dj /\ (c12_nn_index keys <= j)%nat).
+Proof. exact c12_nn_tie_rule. Qed.
+Print Assumptions C12_nn_tie_rule.
+
 (* remapping onto the source grid's own elements (distinct positions) is the identity,
    whenever the coded choice of the element kind is the data's kind *)
 Theorem C12_identity : forall nn nf ne t data kd r0,
@@ -93,6 +100,29 @@ Theorem C12_const : forall scale p eps k row keys c,
   (c12_idw_point scale p eps k row keys == c)%Q.
 Proof. exact c12_idw_const. Qed.
 Print Assumptions C12_const.
+
+(* the IDW value is linear in the data *)
+Theorem C12_linear : forall scale p eps k keys r1 r2 r3 a b,
+  (forall j, nth j r3 0 == a * nth j r1 0 + b * nth j r2 0)%Q ->
+  (c12_idw_point scale p eps k r3 keys
+   == a * c12_idw_point scale p eps k r1 keys + b * c12_idw_point scale p eps k r2 keys)%Q.
+Proof. exact c12_idw_linear. Qed.
+Print Assumptions C12_linear.
+
+(* coincident points: the weight at d = 0 is 1/eps (positive power) resp. 1/(1+eps) (power 0); no division
+   by zero, and monotonicity holds there too: it is the largest weight *)
+Theorem C12_weight_at_zero : forall scale p eps, (c12_weight scale (S p) eps 0%Z == / eps)%Q.
+Proof. exact c12_weight_at_zero. Qed.
+Print Assumptions C12_weight_at_zero.
+
+Theorem C12_weight_power_zero : forall scale eps d, (c12_weight scale 0 eps d == / (1 + eps))%Q.
+Proof. exact c12_weight_power_zero. Qed.
+Print Assumptions C12_weight_power_zero.
+
+Theorem C12_weight_max_at_zero : forall scale p eps d, (0 < eps)%Q -> 0 <= d ->
+  (c12_weight scale p eps d <= c12_weight scale p eps 0%Z)%Q.
+Proof. exact c12_weight_max_at_zero. Qed.
+Print Assumptions C12_weight_max_at_zero.
 
 (* weights 1/(d^p + eps) do not increase with distance, for every power p >= 0 *)
 Theorem C12_monotone : forall scale p eps d1 d2, (0 < eps)%Q -> 0 <= d1 <= d2 ->
